@@ -112,6 +112,10 @@ func (val Value) IsWhollyKnown() bool {
 // DynamicVal. This implies that both the value is not known, and the final
 // type may change.
 func (val Value) HasWhollyKnownType() bool {
+	if val.IsMarked() {
+		return val.unmarkForce().HasWhollyKnownType()
+	}
+
 	// a null dynamic type is known
 	if val.IsNull() {
 		return true
